@@ -1,6 +1,8 @@
 mod common;
+mod c01;
 mod c03;
 mod c04;
+mod c17;
 mod c18;
 mod dec;
 mod lab;
@@ -22,8 +24,10 @@ fn main() {
     let args = common::Args::parse(&argv);
     let code = match args.prop.as_str() {
         "lab" => lab::run(),
+        "c01" | "c02" => c01::run(&args),
         "c03" => c03::run(&args),
         "c04" => c04::run(&args),
+        "c17" => c17::run(&args),
         "c18" => c18::run(&args),
         "c05" => c05::run(&args),
         "c07" => c07::run(&args),
